@@ -10,6 +10,7 @@ dynamics under test).
 import contextlib
 import copy
 import gc
+import inspect
 import itertools
 import os
 import random
@@ -50,16 +51,46 @@ def net_query_names():
 
 
 def invoke(obj, name, kw, model):
+    """Call a query.  kw may carry the reserved key "@pos": the LRU keys
+    entries by the argument pattern at the call site, so the same logical
+    query is asked (0) with keywords, (1) positionally, (2) positionally with
+    the first omitted parameter given its default explicitly -- the patterns
+    the library's own internal callers use."""
     from registry.specs import resolve_arg
     if name.startswith("attr:"):
         return getattr(obj, name[5:])
+    pos = kw.get("@pos", 0)
     args = {k: (getattr(type(obj), v[8:]) if isinstance(v, str)
                 and v.startswith("@static:") else resolve_arg(v, model))
-            for k, v in kw.items()}
-    out = getattr(obj, name)(**args)
+            for k, v in kw.items() if not k.startswith("@")}
+    f = getattr(obj, name)
+    pargs = []
+    if pos:
+        try:
+            params = list(inspect.signature(f).parameters.values())
+        except (TypeError, ValueError):
+            params = []
+        for prm in params:
+            if prm.kind not in (prm.POSITIONAL_ONLY,
+                                prm.POSITIONAL_OR_KEYWORD):
+                break
+            if prm.name in args:
+                pargs.append(args.pop(prm.name))
+            elif pos == 2 and prm.default is not prm.empty:
+                pargs.append(prm.default)
+                pos = 1
+            else:
+                break
+    out = f(*pargs, **args)
     if hasattr(out, "__next__"):
         out = list(out)
     return out
+
+
+def with_pos(kw, rnd):
+    """The query pattern kw with a seeded call-site pattern."""
+    c = rnd.random()
+    return kw if c < 0.5 else dict(kw, **{"@pos": 1 if c < 0.8 else 2})
 
 
 def snap(v):
@@ -70,7 +101,8 @@ def snap(v):
 
 
 def qkey(name, kw):
-    return name + "(" + ",".join(f"{k}={kw[k]}" for k in sorted(kw)) + ")"
+    return name + "(" + ",".join(f"{k}={kw[k]}" for k in sorted(kw)
+                                 if not k.startswith("@")) + ")"
 
 
 @contextlib.contextmanager
@@ -234,10 +266,12 @@ class C01(Machine):
                     else a.randrange(10 ** 9)
                 ops.append({"op": "mutate", "obj": 0, "name": mn,
                             "as": used[mn]})
+            kw = with_pos(kw, a)
             ops.append({"op": "query", "obj": 0, "name": qn, "kw": kw})
             for _ in range(a.randrange(0, 3)):
                 fn, fk = qs[a.randrange(len(qs))]
-                ops.append({"op": "query", "obj": 0, "name": fn, "kw": fk})
+                ops.append({"op": "query", "obj": 0, "name": fn,
+                            "kw": with_pos(fk, a)})
             ops.append({"op": "mutate", "obj": 0, "name": mname,
                         "as": used[mname] if mname in used
                         and a.random() < 0.5 else a.randrange(10 ** 9)})
@@ -263,13 +297,17 @@ class C01(Machine):
         qs = state_queries_for(spec)
         muts = spec.mutators()
         hot = [qs[a.randrange(len(qs))] for _ in range(4)]
+        hot = [(qn_, with_pos(kw_, a)) for qn_, kw_ in hot]
         last_as = {}
         for _ in range(o.randrange(6, 31)):
             i = live[o.randrange(len(live))]
             c = o.random()
             if c < 0.55:
-                qn, kw = hot[o.randrange(len(hot))] if o.random() < 0.6 \
-                    else qs[o.randrange(len(qs))]
+                if o.random() < 0.6:
+                    qn, kw = hot[o.randrange(len(hot))]
+                else:
+                    qn, kw = qs[o.randrange(len(qs))]
+                    kw = with_pos(kw, o)
                 ops.append({"op": "query", "obj": i, "name": qn, "kw": kw})
             elif c < 0.93:
                 mu = muts[o.randrange(len(muts))]
